@@ -36,6 +36,14 @@ func main() {
 		os.Exit(cmdVC(os.Args[2:]))
 	case "replay":
 		os.Exit(cmdReplay(os.Args[2:]))
+	case "ext":
+		prog, _, err := setup(envOr("GVC_REPO", "/repo"), envOr("GVC_VERIF", "/verif"))
+		if err != nil {
+			fmt.Println(err)
+			os.Exit(2)
+		}
+		cmdExt(prog)
+		os.Exit(0)
 	default:
 		fmt.Fprintln(os.Stderr, "unknown command", os.Args[1])
 		os.Exit(2)
@@ -71,7 +79,7 @@ func cmdCheck(args []string) int {
 	fs.Parse(args)
 	seed, _ := strconv.Atoi(envOr("VERIF_SEED", "0"))
 	workers := runtime.NumCPU()
-	initSolvers(workers, filepath.Join(*verifDir, ".cache"))
+	initSolvers(workers/2+2, filepath.Join(*verifDir, ".cache"))
 
 	fail := func(msg string) int {
 		// machinery failure: not a verdict about the property
